@@ -38,7 +38,7 @@ func Check() *common.Check {
 		Rule: "cleanliness: one case per (pooled type found in pkg/sql/ast/*.go, field, release path, fill variation); non-trivial = the field was non-zero before release and the very same object (pointer identity) was obtained back from the pool. " +
 			"ownership: one case per operation history of length 1..4 (quick) / 1..5 (thorough) over 24 operations, executed from empty pools with the collector off; distinct = distinct operation sequence; " +
 			"non-trivial = a pooled node released earlier in the history is part of a tree handed out later in the same history (the pools really recycled). " +
-			"release audit: one case per statement of the sqlgen space (quick: clause / DML / DDL / hole / nesting sections; thorough: all but the 3/4-operator shapes): parse, release through ReleaseAST / formatter.Format / parser.ValidateBytes, drain every pool (no object twice, every drained object indistinguishable from a new one, no two pooled objects or retained backing arrays sharing memory), then hold two trees of the statement together (disjoint pooled nodes, equal to the tree from empty pools). " +
+			"release audit: one case per statement of the sqlgen space (quick: clause / DML / DDL / hole / nesting sections; thorough: all but the 3/4-operator shapes): parse, release through ReleaseAST / formatter.Format / parser.ValidateBytes, drain every pool (no object twice, every drained object indistinguishable from a new one, no two pooled objects or retained backing arrays sharing memory), then hold two trees of the statement together (disjoint pooled nodes, equal to the tree from empty pools) and run ten read-only consumers over one of them (serialisers, traversal, the six extractors, the scanner: the tree is unchanged after each). " +
 			"token hand-back: one case per (contiguous sub-slice [i:j] of the token list of a four-statement script with a failing and an unfinished statement, cut with spare capacity or with cap == len) x 7 parser-token and 4 tokenizer-token entry points (Parse, ParseContext, ParseWithPositions, ParseWithRecovery, ParseMultiWithRecovery, pooled parser, configured parser; the FromModelTokens family): every element of the caller's backing array, the spare capacity included, is the same afterwards. " +
 			"states = distinct (held values, per-tree node count and recycled-node count) tuples observed after a step",
 		Assume: []string{
